@@ -369,3 +369,58 @@ def run_validate_model(name, wb, outlists, tols, perturbs, broken, timeout=1800)
             + '\n'.join(l for l in res.stdout.splitlines()
                         if not l.startswith('"'))[-3000:])
     return res, res.json
+
+
+# ---------------------------------------------------------------------------
+# EngineIter.tla (C06)
+
+def canon_istate(s):
+    return json.dumps(dict(inp=s['inp'], built=sorted(s['built']), val=s['val'],
+                           prev=s['prev'], passes=s['passes'], todo=sorted(s['todo'])),
+                      sort_keys=True)
+
+
+def gen_iter_graph(name, wb, pool, choices, acyclic, settable=None, timeout=1800, depth=0):
+    d = tlc.new_scratch('iter')
+    mod = f'MC_{name}_iter'
+    ch = W.tla_set(f'<<{n}, {t}>>' for n, t in choices)
+    with open(os.path.join(d, mod + '.tla'), 'w') as f:
+        f.write(W.tla_constants(wb, pool, 'NoData', mod, settable=settable,
+                                extends='EngineIter',
+                                extra=f'MCIterChoices == {ch}\nMCAcyclic == {"TRUE" if acyclic else "FALSE"}'))
+    with open(os.path.join(d, 'gen.cfg'), 'w') as f:
+        f.write(W.CONST_CFG + '  IterChoices <- MCIterChoices\n  Acyclic <- MCAcyclic\n'
+                'SPECIFICATION ISpec\nVIEW iview\n'
+                'INVARIANT PassBound\nINVARIANT HonestStop\nINVARIANT AcyclicAgrees\n'
+                'INVARIANT AcyclicTwoPasses\nINVARIANT IPrintInit\n'
+                'ACTION_CONSTRAINT IPrintEdge\n'
+                + (f'CONSTRAINT Depth{depth}\n' if depth else ''))
+    res = tlc.run(mod, os.path.join(d, 'gen.cfg'), spec_dir=d, workers=1,
+                  library=tlc.SPEC, timeout=timeout, heap='3g')
+    if not res.ok:
+        raise tlc.MachineryFailure(
+            f'EngineIter model {name} violates {res.violated}:\n'
+            + '\n'.join(l for l in res.stdout.splitlines()
+                        if not l.startswith('"'))[-3000:])
+    g = Graph()
+    g.tlc = res
+    seen = set()
+    for rec in res.json:
+        if 'init' in rec:
+            k = canon_istate(rec['init'])
+            g.init = k
+            g.states[k] = rec['init']
+            continue
+        kf, kt = canon_istate(rec['from']), canon_istate(rec['to'])
+        g.states.setdefault(kf, rec['from'])
+        g.states.setdefault(kt, rec['to'])
+        ak = json.dumps(rec['act'], sort_keys=True)
+        if (kf, ak) in seen:
+            continue
+        seen.add((kf, ak))
+        g.out[kf].append((rec['act'], rec['ret'], kt))
+    res.stdout, res.json = '', []
+    if len(g.states) != res.distinct:
+        raise tlc.MachineryFailure(
+            f'export incomplete: {len(g.states)} states parsed, TLC found {res.distinct}')
+    return g
